@@ -19,13 +19,22 @@
    Connection preface (HTTP/2: the fixed 24-byte client preface, protocol/http2/codec.go serverCodec.Decode +
    MFramer.ReadPreface): when Preface > 0 the stream starts with a unit of that many bytes which the decoder
    must consume exactly once before the first frame; a need-more answer on it consumes nothing and changes
-   no decoder state (`pre`). Its model bytes are the zones first byte | middle | last byte - 1 | last byte. *)
+   no decoder state (`pre`). Its model bytes are the zones first byte | middle | last byte - 1 | last byte.
+   Transport under the read buffer (network/connection.go doRead, mtls/conn.go): a read may end because the read
+   deadline expired (Timeout); that is a normal event on an idle connection: the bytes the transport had taken
+   off the wire so far are delivered with it, nothing is lost, buffer and decoder state stay as they are.
+   Peek = 1 models the wrapper of a TLS-inspector listener serving a plain-text client (mtls.Conn): the first byte
+   of the connection is peeked off the wire before the read loop starts and is handed out in front of the data
+   of the first Read - also when that Read ends with the deadline error.
+     "ShortCountAfterTimeout" a read that ends with the deadline error does not account for the bytes it took *)
 EXTENDS Integers, Sequences, FiniteSets, TLC, Json
 
 CONSTANTS MaxFrames,  \* frames per stream: 1..MaxFrames
           Lens,       \* admissible frame lengths (model bytes), all >= H
           H,          \* bytes needed before the frame length is known (fixed header)
           Preface,    \* length of the connection preface (0 = the protocol has none)
+          Peek,       \* bytes the transport wrapper peeks off the wire before the first Read (0 | 1)
+          MaxTimeouts,\* read deadlines that may expire during one behaviour
           Defects
 
 VARIABLES frames,  \* sequence of frame lengths: the input stream
@@ -34,8 +43,11 @@ VARIABLES frames,  \* sequence of frame lengths: the input stream
           out,     \* what was handed to the stream layer: sequence of [start, len] byte ranges
           pc,      \* "read" | "dispatch" | "error"
           pre,     \* decoder flag: connection preface "pending" | "done"
+          held,    \* bytes the transport took off the wire but has not yet appended to the read buffer
+          lost,    \* bytes taken off the wire that will never reach the read buffer (must stay 0)
+          pauses,  \* history: offsets (bytes sent so far) at which a read deadline expired
           cuts     \* history: offsets at which the stream was cut (for case emission)
-vars == <<frames, fed, cons, out, pc, pre, cuts>>
+vars == <<frames, fed, cons, out, pc, pre, held, lost, pauses, cuts>>
 
 (* ---------------- stream geometry (shared with the trace spec) ---------------- *)
 RECURSIVE Off(_, _)
@@ -62,20 +74,35 @@ ConsumedOK(us, f, c) == c = Off(us, Complete(us, f))
 Init == /\ \E n \in 1..MaxFrames : frames \in [1..n -> Lens]
         /\ fed = 0 /\ cons = 0 /\ out = <<>> /\ pc = "read" /\ cuts = <<>>
         /\ pre = IF Preface > 0 THEN "pending" ELSE "done"
+        /\ held = 0 /\ lost = 0 /\ pauses = <<>>
 
+Sent == fed + held + lost                                 \* bytes the peer has written so far
 StreamLen == Preface + Total(frames)
 FFed  == IF fed > Preface THEN fed - Preface ELSE 0      \* bytes of the frame part read so far
 FCons == cons - Preface                                  \* bytes of the frame part drained so far
 
-Feed(n) == /\ pc = "read" /\ fed + n <= StreamLen
-           /\ fed' = fed + n /\ cuts' = Append(cuts, fed + n)
-           /\ pc' = "dispatch"
-           /\ UNCHANGED <<frames, cons, out, pre>>
+Feed(n) == /\ pc = "read" /\ Sent + n <= StreamLen
+           /\ cuts' = Append(cuts, Sent + n)
+           /\ IF Peek = 1 /\ Sent = 0 /\ n = 1
+              THEN /\ held' = 1 /\ fed' = fed /\ pc' = "read"     \* peeked; the first Read waits for more
+              ELSE /\ fed' = fed + held + n /\ held' = 0 /\ pc' = "dispatch"
+           /\ UNCHANGED <<frames, cons, out, pre, lost, pauses>>
+
+(* the read deadline expires while the read loop waits for the peer *)
+Timeout == /\ pc = "read" /\ Len(pauses) < MaxTimeouts /\ Sent < StreamLen
+           /\ ~(Peek = 1 /\ Sent = 0)                  \* no deadline is armed while the inspector peeks
+           /\ pauses' = Append(pauses, Sent)
+           /\ IF "ShortCountAfterTimeout" \in Defects
+              THEN fed' = fed /\ lost' = lost + held
+              ELSE fed' = fed + held /\ lost' = lost
+           /\ held' = 0
+           /\ pc' = IF fed' > fed THEN "dispatch" ELSE "read"
+           /\ UNCHANGED <<frames, cons, out, pre, cuts>>
 
 Buffered == fed - cons
 
 Decode == /\ pc = "dispatch"
-          /\ LET i == FrameAt(frames, FCons) IN
+          /\ LET i == IF lost > 0 THEN 0 ELSE FrameAt(frames, FCons) IN   \* after a loss the buffer is not the stream
              IF Buffered <= 0 THEN                         \* buffer empty: Dispatch returns
                   pc' = "read" /\ UNCHANGED <<cons, out, pre>>
              ELSE IF pre = "pending" THEN
@@ -93,9 +120,9 @@ Decode == /\ pc = "dispatch"
                      ELSE /\ out' = Append(out, [start |-> FCons, len |-> L])
                           /\ cons' = cons + (IF "DrainHeader" \in Defects THEN H ELSE L)
                           /\ pc' = "dispatch" /\ pre' = pre
-          /\ UNCHANGED <<frames, fed, cuts>>
+          /\ UNCHANGED <<frames, fed, cuts, held, lost, pauses>>
 
-Next == Decode \/ \E n \in 1..StreamLen : Feed(n)
+Next == Decode \/ Timeout \/ \E n \in 1..StreamLen : Feed(n)
 Spec == Init /\ [][Next]_vars
 
 (* ---------------- properties ---------------- *)
@@ -105,9 +132,10 @@ Prompt      == pc = "read" => PromptOK(frames, FFed, out)
 Consumed    == pc = "read" => IF fed < Preface THEN cons = 0 ELSE ConsumedOK(frames, FFed, FCons)
 PrefaceOnce == (pre = "pending" => cons = 0 /\ out = <<>>) /\ (pre = "done" => cons >= Preface)
 NoError     == pc # "error"
+NoByteLost  == lost = 0 /\ held <= Peek
 \* segmentation independence: at the end of the stream the output is the input, whatever the cuts were
 SameForEveryCut == (pc = "read" /\ fed = StreamLen) => out = [i \in 1..Len(frames) |-> Range(frames, i)]
 
 (* one CASE per complete chunking of a frame vector *)
-EmitCase == (pc = "read" /\ fed = StreamLen) => PrintT(<<"CASE", ToJson([frames |-> frames, cuts |-> cuts, pre |-> Preface])>>)
+EmitCase == (pc = "read" /\ fed = StreamLen) => PrintT(<<"CASE", ToJson([frames |-> frames, cuts |-> cuts, pre |-> Preface, pauses |-> pauses])>>)
 ====
